@@ -52,6 +52,9 @@ func BuildChangeMap(commits []CommitMessage) map[string]map[string]int {
 					file, oldFile, newFile := UpdateMessageForChange(file)
 					if file != oldFile {
 						file = newFile
+					} else if moved := basicMvReg.FindStringSubmatch(file); len(moved) == 3 {
+						// full-path rename notation `old => new`: count the file under its new name
+						file = moved[2]
 					}
 
 					czMap[keyword][file]++
